@@ -279,6 +279,9 @@ type peerSide interface {
 	feed(write func(fr *xh2.Framer)) (connErr bool)
 	open(idx int, body []byte) error
 	windows(idx int) (conn int32, stream int32)
+	// settled waits until a stream whose END_STREAM is on the wire has also left MOSN's stream table (the server
+	// closes the stream in a deferred call right after the write)
+	settled(idx int)
 	resetAll()
 }
 
@@ -334,6 +337,7 @@ func (s *clientSide) open(idx int, body []byte) error {
 }
 
 func (s *clientSide) windows(idx int) (int32, int32) { return s.ms[idx].VerifSendWindows() }
+func (s *clientSide) settled(idx int)                {}
 func (s *clientSide) resetAll() {
 	s.w.Close(api.NoFlush, api.LocalClose)
 	for _, m := range s.ms {
@@ -440,6 +444,11 @@ func (s *serverSide) open(idx int, body []byte) error {
 	return nil
 }
 func (s *serverSide) windows(idx int) (int32, int32) { return s.ms[idx].VerifSendWindows() }
+func (s *serverSide) settled(idx int) {
+	for i := 0; i < 20000 && !s.ms[idx].VerifClosed(); i++ {
+		time.Sleep(100 * time.Microsecond)
+	}
+}
 func (s *serverSide) resetAll() {
 	s.w.Close(api.NoFlush, api.LocalClose)
 	for _, m := range s.ms {
@@ -567,6 +576,14 @@ func runScript(c *hx.Ctx, side string, evs []peerEv) (string, string) {
 			c.Count("peer.sync-timeout")
 		}
 		frames := w.cut()
+		for i := range ref.n {
+			w.mu.Lock()
+			ended := w.ended[uint32(2*i+1)]
+			w.mu.Unlock()
+			if ended {
+				ps.settled(i)
+			}
+		}
 		// account what was actually written
 		w.mu.Lock()
 		var sum int64
